@@ -162,6 +162,8 @@ void draft_t::parse_args(const value_t& args)
       }
       else if (arg == "@" || arg == "@@") {
         amount_t cost;
+        if (! post)
+          throw std::runtime_error(_("Invalid xact command arguments"));
         post->cost_operator = arg;
         if (++begin == end)
           throw std::runtime_error(_("Invalid xact command arguments"));
